@@ -256,10 +256,12 @@ def _hdf5_read_signal(rfilename, dtype, key, **kwargs):
                         group_stack.append(cur_group[name])
             if data is None:
                 raise IOError("Could not find any dataset")
-        if dtype:
-            data = np.array(data, dtype=dtype)
-        else:
-            data = np.array(data)
+        data = np.array(data)
+    if dtype:
+        # cast in a second stage, like the other decoders. Handing dtype to h5py makes
+        # HDF5 do the conversion, which saturates out-of-range values and has no
+        # conversion path for some pairs (e.g. integer to complex)
+        data = data.astype(dtype)
     return data
 
 
